@@ -924,6 +924,10 @@ func (in *Interp) conv(dst, src types.Type, x Value) Value {
 					}
 					panic(unsupported("unsigned symbolic int to float"))
 				}
+				if fb, ok := tt.floatOfTruncated(t); ok {
+					in.path.finite[fb.id] = true
+					return tt.FpOfBits(fb)
+				}
 				if !t.IsConst() && !in.smallInt(t) {
 					return tt.FpOfSIntR(tt.Sext(t, 64))
 				}
